@@ -273,8 +273,31 @@ def doc_small_ctrl():
     return _doc(body)
 
 
+def doc_scopes():
+    """several scopes of every scoped kind, so that a name can be defined elsewhere: two textured effects
+    (own surface / sampler / float sids), two geometries (own sources), two skins (own sources), two
+    scenes (own top-level node ids) and a library node"""
+    body = '<library_images>' + image('imgA', 'a.png') + image('imgB', 'b.png') + '</library_images>\n'
+    body += ('<library_effects>' + effect_textured('fxA', 'imgA') + effect_plain('fxP') + effect_textured('fxB', 'imgB')
+             + '</library_effects>\n')
+    body += '<library_materials>' + material('matA', 'fxA') + material('matB', 'fxB') + '</library_materials>\n'
+    body += ('<library_geometries>' + geometry('gA', [triangles('gA')], with_uv=False)
+             + geometry('gB', [polylist('gB')], with_uv=False) + '</library_geometries>\n')
+    body += '<library_controllers>' + skin('skA', 'gA') + skin('skB', 'gB') + '</library_controllers>\n'
+    body += '<library_nodes><node id="lnA" name="lnA">' + inst_geom('gA', (('m0', 'matA'),)) + '</node></library_nodes>\n'
+    body += ('<library_visual_scenes>'
+             '<visual_scene id="vsA"><node id="a0">' + inst_geom('gB', (('m0', 'matB'),)) + '</node>'
+             '<node id="a1"><instance_node url="#a0"/><instance_node url="#lnA"/>' + inst_ctrl('skA', (('m0', 'matB'),)) + '</node></visual_scene>'
+             '<visual_scene id="vsB"><node id="b0">' + inst_ctrl('skB', (('m0', 'matA'),)) + '</node>'
+             '<node id="b1"><instance_node url="#b0"/></node></visual_scene>'
+             '</library_visual_scenes>\n')
+    body += '<scene><instance_visual_scene url="#vsB"/></scene>\n'
+    return _doc(body)
+
+
 def base_documents():
     return {
+        'scopes': doc_scopes(),
         'full': doc_full(),
         'small_mesh': doc_small_mesh(),
         'small_scene': doc_small_scene(),
